@@ -27,6 +27,7 @@ pub const CHECKS: &[(&str, RunFn, JudgeFn)] = &[
     ("C02", checks::c02::run, checks::c02::judge),
     ("C03", checks::c03::run, checks::c03::judge),
     ("C04", checks::c04::run, checks::c04::judge),
+    ("C05", checks::c05::run, checks::c05::judge),
     ("C06", checks::c06::run, checks::c06::judge),
     ("C07", checks::c07::run, checks::c07::judge),
     ("C08", checks::c08::run, checks::c08::judge_strict),
